@@ -141,14 +141,20 @@ def audit(prop, thorough=False):
     return res
 
 
+SHARD_TIMEOUT = 3000  # seconds per harness process; the quick tier lowers it (set in main)
+
+
 def run_shard(spec, seed, cases, workdir, extra_args=()):
     """one harness process + one model process; returns dict"""
     os.makedirs(workdir, exist_ok=True)
     t0 = time.time()
     cmd = [VH, spec["cmd"], "--seed", str(seed), "--cases", str(cases), "--out", workdir] + list(spec.get("args", [])) + list(extra_args)
     try:
-        rc, out = sh(cmd, cwd=ROOT, timeout=spec.get("timeout", 3000))
+        rc, out = sh(cmd, cwd=ROOT, timeout=spec.get("timeout", SHARD_TIMEOUT))
     except subprocess.TimeoutExpired:
+        # the harness did not come back: the real code spins or waits forever on this input (a hang is a failure of the
+        # implementation, reported with the command that reproduces it); kill what it left behind
+        subprocess.run(["pkill", "-9", "-f", workdir], stdout=subprocess.DEVNULL, stderr=subprocess.DEVNULL)
         return {"seed": seed, "harness_rc": -9, "harness_out": "TIMEOUT of harness " + " ".join(cmd), "diffs": [], "oracle": ["HARNESS TIMEOUT (hang) " + " ".join(cmd)], "lines": 0, "stats": {}, "samples": [], "cmd": cmd}
     r = {"seed": seed, "harness_rc": rc, "harness_out": out[-2000:], "diffs": [], "oracle": [], "lines": 0, "stats": {}, "samples": [], "cmd": cmd, "workdir": workdir, "mode": spec.get("mode")}
     if rc != 0:
@@ -304,6 +310,9 @@ def main():
         tier = "quick"
     seed = int(os.environ.get("VERIF_SEED", "1"))
     cfg = PROPS.PROPS[prop]
+    global SHARD_TIMEOUT
+    # a quick shard takes seconds to two minutes; one that is still running after 15 minutes hangs (reported as such)
+    SHARD_TIMEOUT = int(os.environ.get("VERIF_SHARD_TIMEOUT", "900" if tier == "quick" else "6000"))
     t0 = time.time()
     workroot = f"/dev/shm/nomt-verif-{os.getpid()}"
     os.makedirs(workroot, exist_ok=True)
